@@ -63,7 +63,12 @@ Inductive goal := GoalIsolate | GoalApprox | GoalCount.
 Inductive pkind :=
 | KMonomial       (* built with mps_monomial_poly_new: deflated by set_input_poly *)
 | KSecular        (* mps_secular_equation_new: not deflated *)
-| KFileMonomial.  (* monomial polynomial read by mps_parse_string/mps_parse_stream from .pol text *)
+| KFileMonomial   (* monomial polynomial read by mps_parse_string/mps_parse_stream from .pol text *)
+| KChebyshev.     (* mps_chebyshev_poly_new: not a monomial polynomial (not deflated), not a secular equation *)
+
+(* the [else] branch of MPS_IS_MONOMIAL_POLY in mps_context_set_input_poly (context.c:326) *)
+Definition non_monomial (k : pkind) : bool :=
+  match k with KSecular | KChebyshev => true | _ => false end.
 
 Record state := mk {
   ctx : bool;                (* a context exists (between new and free) *)
@@ -265,10 +270,8 @@ Definition parser_effect (v : variant) (s : state) (d : Z) (k : pkind) : state :
 Definition set_poly (v : variant) (s : state) (d z : Z) (k : pkind) : state * bool :=
   let s0 := parser_effect v s d k in
   (* deflation, s->zero_roots = original_degree - p->degree (monomial polynomials only) *)
-  match k with
-  | KSecular => set_degree v (with_zr s0 (match v with Old => s0.(zr) | Fixed => 0 end)) d k
-  | _ => set_degree v (with_zr s0 z) (d - z) k
-  end.
+  if non_monomial k then set_degree v (with_zr s0 (match v with Old => s0.(zr) | Fixed => 0 end)) d k
+  else set_degree v (with_zr s0 z) (d - z) k.
 
 (* the part of a solve that precedes the numerical work: allocate-once, helper, cluster reset *)
 Definition solve_prepare (s : state) : state * bool :=
@@ -284,11 +287,14 @@ Definition solve (s : state) : state * bool :=
   else if s.(err) then (s, true)                (* interface.c:68: early return *)
   else
     let '(s1, ok1) := solve_prepare s in
-    match s1.(alg), s1.(exitreq) with
-    | AlgoS, true =>
-        (* secular-ga.c:409: "Exit forced by the caller" *)
+    match s1.(alg), s1.(exitreq), s1.(kind) with
+    | AlgoS, true, KSecular =>
+        (* secular-ga.c:409: "Exit forced by the caller" -- reached only when the input IS a secular equation.  For
+           polynomial input (monomial, Chebyshev) mps_secular_ga_check_stop (:78, called at :295) answers true after
+           the first Aberth packet, control goes to cleanup: and the function returns at :623 WITHOUT an error: the
+           branch below (its accesses are a subset of the extents of a full solve). *)
         (with_flags s1 true true, ok1)
-    | _, _ =>
+    | _, _, _ =>
         let '(s2, ok2) := exec_mops s1 (touch_mops s1) in
         (with_solve s2 true s2.(sec) false, ok1 && ok2)
     end.
@@ -334,7 +340,7 @@ Definition run (v : variant) (ops : list op) : state * bool := run_from v empty_
 (* operations the property quantifies over: degrees at least 1 after deflation *)
 Definition op_wf (o : op) : Prop :=
   match o with
-  | OSetPoly d z k => 0 <= z /\ 1 <= d - z /\ (k = KSecular -> z = 0)
+  | OSetPoly d z k => 0 <= z /\ 1 <= d - z /\ (non_monomial k = true -> z = 0)
   | _ => True
   end.
 
